@@ -134,10 +134,9 @@ theorem load_save_core {typed : Bool} {strAtom : String → Atom} {deser : Field
           = some es0 := by rw [toList_eq, h1]; rfl
       obtain ⟨t', h3, h4, h5, _⟩ := fromList_toList_core (strAtom := strAtom) (deser := deser) hnode htop hsib hD h0
       refine ⟨t', ?_, h4, h5⟩
-      rw [loadJ_header_eq (lookupF_saved_meta _ _) (lookupF_saved_nodes _ _)
-        (fun e he => (hmeta e he).1) (fun e he => (hmeta e he).2.1) (fun e he => (hmeta e he).2.2)]
       simp only at h2
-      rw [h2]
+      rw [loadJ_header_eq (lookupF_saved_meta _ _) (lookupF_saved_nodes _ _)
+        (fun e he => (hmeta e he).1) (fun e he => (hmeta e he).2.1) (fun e he => (hmeta e he).2.2) h2]
       simp only [h3]
       rfl
 
